@@ -121,8 +121,11 @@ func (s *rrSegFetcher) doCheck() {
 	defer s.doCheck()
 
 	// queue outgoing interest for the next segment
+	// cap the slice so that append allocates: the Interests of one window are encoded later,
+	// and names appended in place to a slice with spare capacity would all become the last one
+	fetchName := state.fetchName[:len(state.fetchName):len(state.fetchName)]
 	args := ExpressRArgs{
-		Name: append(state.fetchName,
+		Name: append(fetchName,
 			enc.NewSegmentComponent(seg),
 		),
 		Config: &ndn.InterestConfig{
